@@ -6,7 +6,7 @@ META = {
     "note": "Ground truth is the uploaded plaintext. Trusts the in-process Wire, the virtual reactor/scheduler and the RangeMap shim. interfaces.py calls reads past EOF a caller error; the property statement defines them (clipped / empty), so they are judged by the statement. Writes that arrive while a push producer is paused are not judged (IPushProducer.pauseProducing is advisory). For LiteralFileNode the exception type of a stopped read is not judged (twisted FileSender raises a plain Exception).",
 }
 LEVEL = "exploration"
-BUDGET = {"quick": 45, "thorough": 420}
+BUDGET = {"quick": 36, "thorough": 420}
 SHARDS = {"quick": 1, "thorough": 12}
 
 from vf import env  # noqa
@@ -143,15 +143,20 @@ class Reader(imm.RecordingConsumer):
 
 # --------------------------------------------------------------------------- driving
 def drive(g, readers, starts):
-    """starts: [(after_steps, reader, thunk)].  Returns 'done' | 'lost'."""
+    """starts: [(trigger, reader, thunk)]; trigger = number of scheduler steps, or a Reader (start as soon as
+    that reader has been stopped or has finished: "cancel, then ask again").  Returns 'done' | 'lost' | 'steps'."""
     reactor = g.sched.reactor
     t0 = reactor.seconds()
     steps = 0
-    starts = sorted(starts, key=lambda t: t[0])
+    starts = list(starts)
     stalled = False
     while True:
-        while starts and (steps >= starts[0][0] or stalled):
-            (_, r, thunk) = starts.pop(0)
+        for ent in list(starts):
+            (trig, r, thunk) = ent
+            due = (steps >= trig) if isinstance(trig, int) else (trig.stop_called or bool(trig.box))
+            if not (due or stalled):
+                continue
+            starts.remove(ent)
             r.started = True
             try:
                 d = thunk()
@@ -237,7 +242,7 @@ def judge(ck, readers, outcome, kind, desc, DownloadStopped):
             continue
         if isinstance(res, Failure):
             how = "sibling-stopped" if any_stop else "sibling-paused-or-self-paused" if any_pause else "undisturbed"
-            ck.violation("read-failed-on-honest-grid/%s%s" % (how, ctx),
+            ck.violation("read-failed-on-honest-grid/%s/%s%s" % (how, res.type.__name__, ctx),
                          "read(offset=%r,size=%r) errbacked with %s (%s)" % (r.offset, r.size, fdesc(res), how), w)
             continue
         ck.hit("read-completed")
@@ -389,6 +394,28 @@ def sampled_case(ck, rng, i, DownloadStopped):
                 readers.append(r)
                 starts.append((rng.randint(0, stagger * j) if stagger else 0, r,
                                (lambda r=r, off=off, sz=sz: node.read(r, off, sz))))
+            # "cancel, then ask again": a further read of (nearly) the same range starts the moment a sibling is stopped
+            stoppers = [r for r in readers if r.label.startswith("stop") or r.label == "pause-then-stop"]
+            if stoppers and len(readers) < 4 and rng.random() < .6:
+                a = rng.choice(stoppers)
+                mode = rng.choice(["resume", "resume", "same", "near"])
+                bp, sp, dp, label = gen_plan(rng, rng.choice([1, seg, 2 * seg]), seg, kind, allow_stop=False)
+                r = Reader(ck, label + "+restart-after-sibling-stop", 0, None, b"", bp, sp, dp)
+
+                def restart(r=r, a=a, mode=mode, near=gen_range(rng, p["size"], seg, near=(a.offset, 0))):
+                    if mode == "resume":      # continue where the cancelled download was
+                        off = a.offset + a.nbytes
+                        sz = None if a.size is None else max(0, a.size - a.nbytes)
+                    elif mode == "same":
+                        off, sz = a.offset, a.size
+                    else:
+                        off, sz = near
+                    r.offset, r.size, r.expected = off, sz, expected_slice(data, off, sz)
+                    return node.read(r, off, sz)
+                readers.append(r)
+                starts.append((a, r, restart))
+                nreads += 1
+                ck.hit("read-started-when-sibling-stopped")
             # a reader that stops a sibling from inside its own write()
             if nreads >= 2 and rng.random() < .3:
                 a, b = rng.sample(readers, 2)
@@ -467,10 +494,10 @@ def enumerated_part(ck, deadline_frac, DownloadStopped):
                 idx += 1
                 if idx % modulus != (ck.seed // len(GRID_FILES)) % modulus:
                     continue
-                total += 1
                 if not ck.mine(idx):
                     continue
-                if ck.time_left() < deadline_frac * ck.budget_s if ck.budget_s else False:
+                total += 1
+                if ck.budget_s and ck.time_left() < deadline_frac * ck.budget_s:
                     complete = False
                     break
                 if g is None or done % 400 == 0:
@@ -513,6 +540,46 @@ def enumerated_part(ck, deadline_frac, DownloadStopped):
     return complete
 
 
+# --------------------------------------------------------------------------- part 0: directed
+def directed_cancel_then_retry(ck, DownloadStopped):
+    """Deterministic scenario per delivery profile: on a warm node read A (first segment) and read B (second segment)
+    run concurrently; A's consumer stops while a segment decode is in flight; the moment A is stopped, read C asks
+    for A's range again.  B and C must complete correctly."""
+    from vf.grid import VGrid
+    from allmydata.immutable.upload import Data
+    for pi, profile in enumerate(PROFILES):
+        p = GRID_FILES[(ck.seed + pi) % len(GRID_FILES)]
+        S, size = p["segsize"], p["size"]
+        data = bytes((j * 89 + 13) % 256 for j in range(size))
+        g = VGrid(nservers=3, seed=ck.rng("directed", pi).getrandbits(32), profile=profile, keep_log=False)
+        try:
+            with ck.watchdog(120, "directed cancel-then-retry"):
+                c = g.make_client(k=p["k"], happy=1, n=p["n"], max_segment_size=S)
+                st, res = g.wait(c.upload(Data(data, convergence=b"")))
+                if st != "ok":
+                    ck.observe("upload-failed")
+                    continue
+                node = c.create_node_from_uri(res.get_uri())
+                warm = Reader(ck, "plain", 0, None, data)
+                drive(g, [warm], [(0, warm, lambda: node.read(warm, 0, None))])
+                for skip in (0, 1):
+                    a = Reader(ck, "stop-during-decode", 0, 10, data[0:10], decode_plan=[(skip, "stop", None)])
+                    b = Reader(ck, "plain", S + 7, 10, data[S + 7:S + 17])
+                    cc = Reader(ck, "plain+restart-after-sibling-stop", 0, 10, data[0:10])
+                    readers = [warm, a, b, cc] if skip == 0 else [a, b, cc]
+                    outcome = drive(g, [a, b, cc], [(0, a, lambda: node.read(a, 0, 10)),
+                                                    (0, b, lambda: node.read(b, S + 7, 10)),
+                                                    (a, cc, lambda: node.read(cc, 0, 10))])
+                    g.sched.run(max_steps=3000, allow_time=False)
+                    judge(ck, readers, outcome, "chk", dict(k=p["k"], n=p["n"], max_segsize=S, size=size, profile=profile,
+                                                            part="directed cancel-during-decode then retry"), DownloadStopped)
+                    ck.hit("directed-cancel-then-retry")
+                    ck.case("directed-cancel-then-retry", key=("directed", profile, skip, S, size), nontrivial=True,
+                            sample=dict(file=p, profile=profile))
+        finally:
+            g.close()
+
+
 def run(ck):
     from allmydata.interfaces import DownloadStopped
 
@@ -522,30 +589,48 @@ def run(ck):
                "distinct = (kind,k,N,segsize,size,offset,size,plan,concurrency,profile); non-trivial = non-empty slice or "
                "offset>=EOF. Enumerated case = ordered pair of ranges over the 12-point grid "
                "{0,1,16,17,S-1,S,S+1,2S-1,2S,EOF-1,EOF,EOF+1} of a 3-segment file, both reads concurrent on one node")
-    # ---- part 2 first (bounded), it keeps 45% of the budget for part 1
+    if ck.shard == 0:
+        directed_cancel_then_retry(ck, DownloadStopped)
+    # ---- part 2 first (bounded), it keeps half of the budget for part 1
     complete = enumerated_part(ck, 0.5 if ck.tier == "quick" else 0.35, DownloadStopped)
     ck.exhaustive = bool(complete and ck.tier == "thorough")
     if not complete:
         ck.observe("enumeration-cut-by-budget")
-    ck.extra["enumeration_complete"] = bool(complete)
+    ck.extra["enumeration_shards_complete"] = 1 if complete else 0
     # ---- part 1
     i = 0
-    while not ck.out_of_time():
+    target = ck.evaluations + (700 if ck.tier == "quick" else 3000)   # reads judged by part 1 even on a loaded machine
+    t1 = ck.evaluations
+    while ck.more(min_cases=target):
         i += 1
         if not ck.mine(i):
             continue
         crng = ck.rng("case", i)
         with ck.watchdog(180, "sampled case %d" % i):
             sampled_case(ck, crng, i, DownloadStopped)
+    ck.extra["sampled_reads_judged"] = ck.evaluations - t1
     ck.require_monitor("prefix-oracle", "completion-oracle")
     ck.require_reach("read-completed", "multi-segment-file", "range-spans-segments", "offset-inside-aes-block",
                      "offset-at-or-past-eof", "size-clipped-at-eof", "size-none", "completed-after-pause",
                      "stopped-read-judged", "stopped-with-partial-prefix", "completed-next-to-stopped-sibling",
                      "stop:self-between-events", "stop:self-inside-write", "stop:sibling-inside-write",
-                     "concurrency-4", "enumerated-pair",
+                     "concurrency-4", "enumerated-pair", "directed-cancel-then-retry",
                      "profile:fifo", "profile:per-server-fifo", "profile:free")
     ck.assumptions.append("reads past EOF are judged by the property statement (clipped / empty) although "
                           "interfaces.py leaves them to the caller")
 
 
-# MUST_CATCH (selftest/breaks_c04.py; results in the final report of the authoring session)
+# MUST_CATCH (selftest/breaks_c04.py; all 18 caught at quick tier, seed 0, on a tree with the genuine defect below repaired)
+#   c04-ctr-offset-small-mod8, c04-ctr-offset-big-plus1-when-positive, c04-ctr-big-small-swapped   -> wrong-bytes-delivered/chk
+#   c04-got-segment-slice-one-too-long, c04-got-segment-slice-starts-one-early                     -> wrong-bytes-delivered/chk
+#   c04-wanted-segnum-rounds-up-at-boundary, c04-extract-requests-retires-lower-segments-too       -> read-failed-on-honest-grid/*
+#   c04-resume-does-not-fetch                                                                      -> read-never-completed/after-pause
+#   c04-stop-does-not-cancel-segment-request, c04-deliver-ignores-cancel                           -> bytes-after-stopProducing
+#   c04-stop-errbacks-generic-error                                                                -> stopped-read-wrong-error
+#   c04-cancel-removes-every-other-request, c04-cancel-removes-first-request-for-same-segment      -> read-never-completed/sibling-stopped
+#   c04-read-does-not-clip-size-at-eof                                                             -> read-raised-synchronously
+#   c04-read-size-none-means-size-minus-offset-plus1                                               -> success-with-wrong-length/chk
+#   c04-literal-slice-end-is-size, c04-literal-size-none-skips-a-byte, c04-literal-ignores-offset  -> */lit
+# GENUINE on the unchanged tree: read-failed-on-honest-grid/sibling-stopped/AssertionError/chk
+#   downloader/node.py process_blocks/_check_ciphertext_hash: a read cancelled while its segment is being decoded
+#   (defer_to_thread) leaves a stale completion that asserts on / clears another fetcher's _active_segment.
